@@ -162,12 +162,15 @@ func checkC04(c *Ctx) {
 	for _, a := range guardsAt(stopCall.Block()) {
 		common[a.String()] = true
 	}
-	resets := map[string][]ssa.Instruction{}
-	eachInstr(disengage, func(in ssa.Instruction) {
-		for _, id := range emitIdents(p, in) {
-			resets[id] = append(resets[id], in)
+	// the resets may be written in disengage itself or in helpers it calls (restoreTerminal, …): they
+	// are looked for through static calls; a call that is itself an emission in the rule's vocabulary
+	// (enableMouse(0), TPuts, …) is not entered
+	resets := map[string][]deepInstr{}
+	for _, d := range deepInstrs(p, disengage, 3, func(call ssa.Instruction, _ *ssa.Function) bool { return len(emitIdents(p, call)) == 0 }) {
+		for _, id := range emitIdents(p, d.in) {
+			resets[id] = append(resets[id], d)
 		}
-	})
+	}
 	for _, pr := range pairs {
 		canSet := false
 		for _, s := range pr.sets {
@@ -186,7 +189,8 @@ func checkC04(c *Ctx) {
 		}
 		ok := false
 		why := ""
-		for _, s := range sites {
+		for _, ds := range sites {
+			s := ds.anchor
 			if !reachableAfter(s, stopCall) || reachableAfter(stopCall, s) {
 				why = "emitted after Tty.Stop or on a path that does not reach it"
 				continue
@@ -204,7 +208,7 @@ func checkC04(c *Ctx) {
 				continue
 			}
 			bad := []string{}
-			for _, a := range guardsAt(s.Block()) {
+			for _, a := range ds.guards() {
 				as := a.String()
 				if common[as] {
 					continue
@@ -225,7 +229,7 @@ func checkC04(c *Ctx) {
 				why = fmt.Sprintf("reset depends on %v, which is not tied to the mode being set", bad)
 			}
 		}
-		c.Check(ok, "C04-R1", "pair:"+pr.kind, p.pos(sites[0].Pos()), fmt.Sprintf("reset %s before Tty.Stop %s", pr.reset, why))
+		c.Check(ok, "C04-R1", "pair:"+pr.kind, p.pos(sites[0].in.Pos()), fmt.Sprintf("reset %s before Tty.Stop %s", pr.reset, why))
 	}
 
 	// ---- R7: the other direction.  What the shutdown path undoes every time must have been done every
@@ -324,11 +328,16 @@ func checkC04(c *Ctx) {
 		}
 		return false
 	})
-	c.Check(drain != nil && instrDominates(drain, stopCall), "C04-R2", "disengage:Drain-before-Stop", p.pos(stopCall.Pos()), "Tty.Drain() dominates Tty.Stop()")
-	okN := notify != nil && instrDominates(notify, stopCall) && isNilConst(callCommon(notify).Args[0])
+	// "before" = on every branch-consistent path (the same flag may be tested twice: once around the
+	// drain and once for the early return)
+	before := func(a, b ssa.Instruction) bool {
+		return a != nil && b != nil && (instrDominates(a, b) || mustPrecede(disengage, []ssa.Instruction{a}, b))
+	}
+	c.Check(before(drain, stopCall), "C04-R2", "disengage:Drain-before-Stop", p.pos(stopCall.Pos()), "Tty.Drain() precedes Tty.Stop() on every path")
+	okN := notify != nil && before(notify, stopCall) && isNilConst(callCommon(notify).Args[0])
 	c.Check(okN, "C04-R2", "disengage:NotifyResize(nil)-before-Stop", p.pos(stopCall.Pos()), "the resize callback is unregistered before Stop")
-	c.Check(wait != nil && instrDominates(wait, stopCall), "C04-R2", "disengage:join-before-Stop", p.pos(stopCall.Pos()), "both loops have exited before the Tty is stopped (no background I/O after Stop)")
-	c.Check(closeStop != nil && drain != nil && wait != nil && instrDominates(closeStop, wait) && instrDominates(drain, wait), "C04-R2", "disengage:signal-before-join", p.pos(stopCall.Pos()), "stopQ is closed and the Tty drained before waiting for the loops")
+	c.Check(before(wait, stopCall), "C04-R2", "disengage:join-before-Stop", p.pos(stopCall.Pos()), "both loops have exited before the Tty is stopped (no background I/O after Stop)")
+	c.Check(before(closeStop, wait) && before(drain, wait), "C04-R2", "disengage:signal-before-join", p.pos(stopCall.Pos()), "stopQ is closed and the Tty drained before waiting for the loops")
 	// all writes before Stop: nothing emitting is reachable after Stop in disengage, finalize, finish
 	isWrite := func(in ssa.Instruction) bool {
 		cc := callCommon(in)
@@ -409,10 +418,13 @@ func checkC04(c *Ctx) {
 	fc := callersOf(finalize)
 	okFin := len(fc) == 1
 	var finish *ssa.Function
-	if okFin {
+	if okFin && strings.HasSuffix(fc[0], "(once)") {
+		// the function that closes the Tty is itself what the Once runs (no separate finalize step)
+		finish = finalize
+	} else if okFin {
 		finish = p.Fn("tcell:(*tScreen)." + fc[0])
 	}
-	c.Check(okFin && finish != nil, "C04-R2", "finalize:single-caller", p.pos(finalize.Pos()), fmt.Sprintf("callers of finalize: %v", fc))
+	c.Check(okFin && finish != nil, "C04-R2", "finalize:single-caller", p.pos(finalize.Pos()), fmt.Sprintf("callers of %s: %v", finalize.Name(), fc))
 	if finish != nil {
 		cc2 := callersOf(finish)
 		c.Check(len(cc2) == 1 && strings.HasSuffix(cc2[0], "(once)"), "C04-R2", "finish:only-through-Once", p.pos(finish.Pos()), fmt.Sprintf("callers of %s: %v", finish.Name(), cc2))
